@@ -695,15 +695,14 @@ impl<'w, Q: Query> QueryBorrow<'w, Q> {
     }
 
     /// Helper to change the type of the query
-    fn transform<R: Query>(mut self) -> QueryBorrow<'w, R> {
-        let x = QueryBorrow {
+    fn transform<R: Query>(self) -> QueryBorrow<'w, R> {
+        // Dropping `self` releases whatever was borrowed for `Q`; `R` matches a different set of
+        // archetypes, so it must acquire (and later release) its own borrows.
+        QueryBorrow {
             world: self.world,
-            borrowed: self.borrowed,
+            borrowed: false,
             _marker: PhantomData,
-        };
-        // Ensure `Drop` won't fire redundantly
-        self.borrowed = false;
-        x
+        }
     }
 }
 
